@@ -49,6 +49,7 @@ void shim_user_fd(int fd, int granted) {
 void shim_user_fd_forget(int fd) { if (fd >= 0 && fd < SHIM_MAXFD) memset(&shim_fd[fd], 0, sizeof shim_fd[fd]); }
 int shim_open_lib_fds(void) { int n = 0; for (int i = 0; i < SHIM_MAXFD; i++) if (shim_fd[i].st == FD_LIB_OPEN && !shim_fd[i].user) n++; return n; }
 void shim_reset(void) {
+    shim_regex_live = 0;
     memset(shim_fd, 0, sizeof shim_fd); memset(VT, 0, sizeof VT);
     shim_bad_close = 0; shim_lib_opens = shim_lib_closes = 0; shim_now_ns = 1000ull * 1000000000ull;
     shim_inject_write_eagain = shim_inject_epoll_errno = shim_inject_ctl_del = 0; shim_epoll_calls = shim_epoll_blocking_calls = 0;
@@ -150,3 +151,11 @@ int __wrap_epoll_ctl(int epfd, int op, int fd, struct epoll_event *ev) {
     if (op == EPOLL_CTL_DEL && shim_inject_ctl_del) { shim_inject_ctl_del = 0; errno = ENOENT; return -1; }
     return r;
 }
+
+/* ---- compiled regular expressions (libc allocations the memhook ledger cannot see) ---- */
+#include <regex.h>
+int shim_regex_live;
+int __real_regcomp(regex_t *re, const char *pat, int cflags);
+void __real_regfree(regex_t *re);
+int __wrap_regcomp(regex_t *re, const char *pat, int cflags) { int rc = __real_regcomp(re, pat, cflags); if (!rc) shim_regex_live++; return rc; }
+void __wrap_regfree(regex_t *re) { shim_regex_live--; __real_regfree(re); }
